@@ -81,6 +81,29 @@ var (
 	inprocHungProg string
 )
 
+func restoreEnv(names ...string) func() {
+	type saved struct {
+		v  string
+		ok bool
+	}
+
+	old := map[string]saved{}
+	for _, n := range names {
+		v, ok := os.LookupEnv(n)
+		old[n] = saved{v, ok}
+	}
+
+	return func() {
+		for n, s := range old {
+			if s.ok {
+				os.Setenv(n, s.v)
+			} else {
+				os.Unsetenv(n)
+			}
+		}
+	}
+}
+
 // inprocRunner runs prog in this process as `ego run --sandbox=true` does.
 func inprocRunner(l *layout, prog string) (string, bool) {
 	old, _ := os.Getwd()
@@ -91,6 +114,11 @@ func inprocRunner(l *layout, prog string) (string, bool) {
 	}
 
 	settings.SetDefault(defs.SandboxPathSetting, l.setting)
+
+	// the process environment points outside the root: fallbacks to $TMPDIR, $HOME or the working directory must not be used
+	defer restoreEnv("TMPDIR", "HOME")()
+	os.Setenv("TMPDIR", l.tmpdir)
+	os.Setenv("HOME", l.home)
 
 	if inprocHung {
 		return "HUNG", false
@@ -224,7 +252,7 @@ func newBinRunner() *binRunner {
 }
 
 func (b *binRunner) env(l *layout) []string {
-	return []string{"HOME=" + l.home, "PATH=/usr/bin:/bin", "LANG=C", "EGO_LOCALE=en"}
+	return []string{"HOME=" + l.home, "TMPDIR=" + l.tmpdir, "PATH=/usr/bin:/bin", "LANG=C", "EGO_LOCALE=en"}
 }
 
 func (b *binRunner) configure(l *layout) error {
